@@ -222,6 +222,10 @@ Inductive jv :=
 | JN (repr : string)       (* a float64, as FormatFloat(f, 'f', -1, 64) *)
 | JX.
 
+(* long file contents are printed as a concatenation of short literals and run-length segments *)
+Definition rep_s (n : N) (p : string) : string := N.iter n (String.append p) EmptyString.
+Definition cat (l : list string) : string := String.concat EmptyString l.
+
 Record case := Case {
   c_format : nat;                                          (* 0 TEXT, 1 JSON, other: neither *)
   c_metrics : list string;
